@@ -1,1 +1,1 @@
-From LogosV Require Export Properties.C01.
+From LogosV Require Export Properties.C01 Properties.C02 Properties.C03.
